@@ -2,7 +2,7 @@
 import os
 import re
 
-from cv import extract, flow, rules
+from cv import inline, extract, flow, rules
 from cv.rules import events_of, order_after_success
 from props.C03 import const_strings
 from props import common
@@ -191,17 +191,19 @@ def run(ck, w):
         ck.ok(o)
     o = ck.ob("C13.2d", "the index subdirectory of a hunk is created, from the same sequence number, exactly when sequence % HUNKS_PER_SUBDIR == 0, "
                         "before the hunk is written")
+    # a private bool helper holding the test (`hunk.starts_subdir()`) is expanded in a copy of the body first
+    fhx, _n = inline.expand_predicates(lib, fh)
     problems = []
-    mk = events_of(lib, fh, "transport::Transport::create_dir")
+    mk = events_of(lib, fhx, "transport::Transport::create_dir")
     rems = []
-    for bb, j, st in fh.all_assigns():
+    for bb, j, st in fhx.all_assigns():
         rv = st["rv"]
         if rv["rk"] == "binop" and rv["op"] == "Rem":
-            lhs = flow.origins_x(lib, fh, rv["ops"][0])
+            lhs = flow.origins_x(lib, fhx, rv["ops"][0])
             rhs = rv["ops"][1]
             is_seq = any(x[0] in ("param", "upvar") and "sequence" in x[2] for x in lhs)
             is_hps = (rhs.get("uneval") == "index::HUNKS_PER_SUBDIR") or rhs.get("int") == "10000" or \
-                any(x[0] == "const" and x[2] in ("index::HUNKS_PER_SUBDIR", "10000") for x in flow.origins(fh, rhs))
+                any(x[0] == "const" and x[2] in ("index::HUNKS_PER_SUBDIR", "10000") for x in flow.origins(fhx, rhs))
             if is_seq and is_hps:
                 rems.append((bb, st["pl"]["l"]))
     if not mk:
@@ -211,38 +213,38 @@ def run(ck, w):
     else:
         # the remainder is compared with 0 and create_dir lies behind the `== 0` edge only
         eq_edges = set()
-        for bb, j, st in fh.all_assigns():
+        for bb, j, st in fhx.all_assigns():
             rv = st["rv"]
             if rv["rk"] == "binop" and rv["op"] in ("Eq", "Ne") and len(rv["ops"]) == 2:
                 ls = [flow.operand_local(x) for x in rv["ops"]]
                 zero = any(x.get("k") == "const" and x.get("int") == "0" for x in rv["ops"])
                 if zero and any(l in {r[1] for r in rems} or (l is not None and any(
-                        y[0] == "arith" and y[1] == "Rem" for y in flow.origins(fh, l))) for l in ls):
-                    eq_edges |= rules.local_bool_edges(fh, {st["pl"]["l"]}, rv["op"] == "Eq")
+                        y[0] == "arith" and y[1] == "Rem" for y in flow.origins(fhx, l))) for l in ls):
+                    eq_edges |= rules.local_bool_edges(fhx, {st["pl"]["l"]}, rv["op"] == "Eq")
         if not eq_edges:
             problems.append("the remainder is not compared with zero")
         else:
             for e in mk:
-                if not fh.must_pass_edges(eq_edges, e.bb):
+                if not fhx.must_pass_edges(eq_edges, e.bb):
                     problems.append("create_dir is not confined to sequence % HUNKS_PER_SUBDIR == 0")
             # and every write on the == 0 side passes create_dir's success
-            for e in rules.creators_of(fh, "transport::Transport::create_dir"):
-                dsrc = flow.origins_x(lib, fh, e.args[1])
+            for e in rules.creators_of(fhx, "transport::Transport::create_dir"):
+                dsrc = flow.origins_x(lib, fhx, e.args[1])
                 if "index::subdir_relpath" not in flow.origin_calls(dsrc):
                     problems.append("the created directory is not subdir_relpath(..)")
-        sr = [e for e in fh.events if e.bb in fh.live and e.name == "index::subdir_relpath"]
-        if sr and not any(any(x[0] in ("param", "upvar") and "sequence" in x[2] for x in flow.origins_x(lib, fh, e.args[0])) for e in sr):
+        sr = [e for e in fhx.events if e.bb in fhx.live and e.name == "index::subdir_relpath"]
+        if sr and not any(any(x[0] in ("param", "upvar") and "sequence" in x[2] for x in flow.origins_x(lib, fhx, e.args[0])) for e in sr):
             problems.append("subdir_relpath is not given self.sequence")
         if mk and wr:
-            edges_, hows_, missing_ = rules.success_edges_union(fh, mk)
+            edges_, hows_, missing_ = rules.success_edges_union(fhx, mk)
             # on paths that create the directory, the write comes after its success
             for w_ in wr:
                 for m_ in mk:
-                    if fh.reaches(w_.bb, m_.bb):
+                    if fhx.reaches(w_.bb, m_.bb):
                         problems.append("the hunk is written before its subdirectory is created")
     if problems:
         for m_ in sorted(set(problems)):
-            ck.fail(o, fh.name, m_, m_)
+            ck.fail(o, fhx.name, m_, m_)
     else:
         ck.ok(o)
 
@@ -393,14 +395,27 @@ def run(ck, w):
     good = len(qa) == 1
     if good:
         s = qa[0][2]
-        so = flow.origins_x(lib, pf, rules.field_operand(s, "start"))
-        lo = flow.origins_x(lib, pf, rules.field_operand(s, "len"), through_calls=[r"Try>?::branch$", r"Result::<T, E>::map_err$"])
+        if "start" in s["rv"]["fields"] and "len" in s["rv"]["fields"]:
+            so = flow.origins_x(lib, pf, rules.field_operand(s, "start"))
+            lo = flow.origins_x(lib, pf, rules.field_operand(s, "len"), through_calls=[r"Try>?::branch$", r"Result::<T, E>::map_err$"])
+        else:
+            # another representation of "where this file's bytes lie in the buffer" (a Range, a span struct ...): the position
+            # operands taken together - everything that is not the IndexEntry
+            so = set()
+            for f_, op_ in zip(s["rv"]["fields"], s["rv"]["ops"]):
+                l_ = flow.operand_local(op_)
+                if l_ is not None and "IndexEntry" in (pf.locals[l_] or ""):
+                    continue
+                so |= flow.origins_x(lib, pf, op_, through_calls=[r"Try>?::branch$", r"Result::<T, E>::map_err$"])
+            lo = so
+            so = {x for x in so if x[0] != "arith"}       # start..start+len: the sum is the end, not the start
         lens = [e for e in pf.events if e.bb in pf.live and e.name == "bytes::BytesMut::len"]
         resize = [e for e in pf.events if e.bb in pf.live and e.name in ("bytes::BytesMut::resize", "bytes::BytesMut::extend_from_slice", "bytes::BytesMut::put_slice")]
         if "bytes::BytesMut::len" not in flow.origin_calls(so) or [x for x in so if x[0] == "arith"]:
             good = False
             ck.fail(o, pf.name, "start is not buf.len()", "start from %s" % flow.origin_summary(so))
-        elif not resize or not lens or not all(pf.must_pass_nodes({lens[0].bb}, r.bb) for r in resize):
+        elif not resize or not lens or not all(pf.must_pass_nodes({l_.bb for l_ in lens if any(x[0] == "call" and x[1] == "bytes::BytesMut::len" and x[2] == l_.bb for x in so)}, r.bb)
+                                               for r in resize):
             good = False
             ck.fail(o, pf.name, "start not taken before the append", "buf.len() does not precede the resize")
         if not any(c.endswith("Read::read") for c in flow.origin_calls(lo)):
@@ -445,8 +460,17 @@ def run(ck, w):
             # the field of the queued file: a closure parameter (`|qf| .. qf.start`), or the loop variable of `for qf in queue`
             return any((x[0] in ("param", "upvar") and name in x[2]) or (x[0] == "call" and name in x[3] and re.search(r"Iterator>?::next$|into_iter$", x[1]))
                        for x in oo)
+
+        def qf_field(oo):
+            # ... whatever the position fields are called (`span.start`, `span.len()`): some field of the queued file other than its entry
+            return any((x[0] in ("param", "upvar") and x[2] and x[2][0] != "entry") or
+                       (x[0] == "call" and x[3] and x[3][0] != "entry" and re.search(r"Iterator>?::next$|into_iter$", x[1])) for x in oo)
+        lo2 = flow.origins_x(lib, fl, rules.field_operand(s, "len"), through_all=[r"::len$", r"TryInto<.*>>?::try_into$|^std::convert::TryInto::try_into$", r"Result::<T, E>::unwrap$"])
         if fld(so, "start") and fld(lo, "len") and not [x for x in so | lo if x[0] == "arith"]:
             ck.ok(o)
+        elif qf_field(so) and qf_field(lo2) and not [x for x in so if x[0] == "arith"] and \
+                not [x for x in lo2 if x[0] == "arith" and x[1] not in ("Sub", "SubWithOverflow", "SubUnchecked")]:
+            ck.ok(o, "position fields of the queued file (other representation)")
         else:
             ck.fail(o, fl.name, "address fields not from the queued file", "start from %s, len from %s" % (flow.origin_summary(so), flow.origin_summary(lo)))
 
